@@ -17,6 +17,9 @@ SIGNAME = {1: "HUP", 2: "INT", 3: "QUIT", 4: "ILL", 5: "TRAP", 6: "ABRT", 7: "BU
            13: "PIPE", 14: "ALRM", 15: "TERM", 16: "STKFLT", 24: "XCPU", 25: "XFSZ", 26: "VTALRM", 27: "PROF", 29: "IO", 30: "PWR", 31: "SYS"}
 
 
+KINDS = []      # value-kind names in enum order (filled by e2e_part from the generated tables)
+
+
 def generated_names():
     txt = open(GEN).read()
 
@@ -62,6 +65,85 @@ def run_model(mode, lines):
         out.pop()
     return p.returncode, out, p.stderr.decode()
 
+
+
+# --------------------------------------------------------------------------------------------------
+# stream `clientx`: the extended client model (Model/BuildSystemClientX.lean: commands that fail by themselves) against what the
+# real engine RECORDS: the value kind of every command / produced node and the dependency list of every command in build.db
+# --------------------------------------------------------------------------------------------------
+STATUS_OF_KIND = {"SuccessfulCommand": "ok", "FailedCommand": "failed", "CancelledCommand": "failed", "PropagatedFailureCommand": "skipped"}
+
+
+def db_snapshot(path, kinds):
+    """{key bytes: (value kind name, [dependency key bytes, in recorded order])} of a build database"""
+    import sqlite3, struct
+    con = sqlite3.connect("file:%s?mode=ro" % path, uri=True, timeout=20)
+    con.text_factory = bytes
+    try:
+        rows = con.execute("select key_names.key, rule_results.value, rule_results.dependencies from rule_results "
+                           "join key_names on key_names.id = rule_results.key_id").fetchall()
+        names = dict(con.execute("select id, key from key_names").fetchall())
+    finally:
+        con.close()
+    out = {}
+    for key, blob, dep in rows:
+        blob, dep = bytes(blob or b""), bytes(dep or b"")
+        kind = kinds[blob[0]] if blob and blob[0] < len(kinds) else "Invalid"
+        out[bytes(key)] = (kind, [bytes(names.get(r >> 2, b"?")) for r in struct.unpack("<%dQ" % (len(dep) // 8), dep[:len(dep) // 8 * 8])])
+    return out
+
+
+def clientx_case(desc, d, armed, kinds):
+    """One build of a DescX history seen through the database: (op lines for the Lean driver mode `c08xclean`, what the real
+    engine recorded in the same canonical form), or (None, reason) when the state is outside the model's fragment."""
+    for nm, mode in armed.items():
+        if mode == "missing-input" and desc.byname[nm].get("ami"):
+            return None, "allow-missing-inputs command with a missing input (the model has no allow-missing-inputs)"
+    cmds = list(desc.cmds) + [{"name": "<all>", "tool": "phony", "inputs": [o for c in desc.cmds for o in c["outputs"]],
+                               "outputs": ["<all>"], "src": None}]
+    ins_of = lambda c: list(c["inputs"]) + ([c["src"]] if c["src"] else [])
+    nodes = sorted({n for c in cmds for n in ins_of(c) + c["outputs"]})
+    idx = {n: i for i, n in enumerate(nodes)}
+    produced = {o for c in cmds for o in c["outputs"]}
+    L = []
+    for n in nodes:
+        st = 2 if (n not in produced and not n.startswith("<") and os.path.isfile(os.path.join(d, n))) else 0
+        L.append("node %d %d %d" % (idx[n], 1 if n.startswith("<") else 0, st))
+    for ci, c in enumerate(cmds):
+        L.append("cmd %d %d %d %s %s" % (ci, 0 if c["tool"] == "shell" else 1, ci + 1, ",".join(str(idx[i]) for i in ins_of(c)) or ".",
+                                         ",".join(str(idx[o]) for o in c["outputs"]) or "."))
+        if c["name"] in armed and armed[c["name"]] != "missing-input":
+            L.append("xfail %d 1" % ci)
+    L.append("evalx")
+    try:
+        snap = db_snapshot(os.path.join(d, "build.db"), kinds)
+    except Exception as e:
+        return None, "database not readable: %s" % e
+    toks = []
+    for ci, c in enumerate(cmds):
+        kind, deps = snap.get(b"C" + c["name"].encode(), ("<no record>", []))
+        want = sorted(b"N" + i.encode() for i in ins_of(c))
+        extra = list(deps)
+        for w in want:                        # the requested keys are recorded in delivery order: compared as a multiset
+            if w in extra:
+                extra.remove(w)
+            else:
+                extra.append(b"<missing request " + w + b">")
+        toks.append("C%d=%s:%s" % (ci, STATUS_OF_KIND.get(kind, kind), ",".join(C.hexs(x[1:]) for x in extra) if extra else "."))
+    for n in nodes:
+        if n in produced and not n.startswith("<"):
+            kind, _ = snap.get(b"N" + n.encode(), ("<no record>", []))
+            toks.append("%d=%s" % (idx[n], "failed" if kind == "FailedInput" else "present" if kind == "ExistingInput" else kind))
+    return L, " ".join(toks)
+
+
+def clientx_canon(model_line):
+    """the model's line with the content of a present node replaced by `present` (the shell scripts of this stream write text)"""
+    out = []
+    for tok in model_line.split():
+        a, _, b = tok.partition("=")
+        out.append("%s=present" % a if (a.isdigit() and b.isdigit()) else tok)
+    return " ".join(out)
 
 # --------------------------------------------------------------------------------------------------
 # end-to-end descriptions
@@ -528,6 +610,7 @@ def run_hist(client, base, desc, jobs):
     # amo_risky: allow-modified-outputs commands that had a recorded success and LATER failed, were skipped for a failure or
     # were executing in a build that failed (two findings of the strengthening round live exactly there, see notes/C10.md)
     st = {"label": "", "build": 0, "ever_armed": set(), "succeeded": set(), "amo_risky": set()}
+    cx = {"cases": [], "outside": {}}
 
     def setup(x):
         shutil.rmtree(x, ignore_errors=True)
@@ -642,6 +725,15 @@ def run_hist(client, base, desc, jobs):
         st["succeeded"] |= set(log) - F - down
         pending.clear()
         pending.update(now)
+        # stream `clientx`: what the engine recorded for this build against the extended client model
+        if keep and KINDS:
+            lines, impl = clientx_case(desc, d, armed, KINDS)
+            if lines is None:
+                cx["outside"][impl.split(":")[0]] = cx["outside"].get(impl.split(":")[0], 0) + 1
+            else:
+                cx["cases"].append((lines, impl, "%s, build %d: %s" % (client.name, st["build"], label)))
+        elif not keep:
+            cx["outside"]["cli client"] = cx["outside"].get("cli client", 0) + 1
         return failed, log, out
 
     pending = set(shell)
@@ -693,7 +785,7 @@ def run_hist(client, base, desc, jobs):
     return fails, {"cmds": len(shell), "failing": len(desc.fail), "downstream": len(desc.data_downstream(set(desc.fail))), "modes": modes,
                    "phony": sum(1 for c in desc.cmds if c["tool"] == "phony"), "builds": st["build"], "phases": len(desc.phases),
                    "amo_failing": len(amo & set(desc.fail)), "amo_unsuccessful_after_success": bool(st["amo_risky"]),
-                   "aood": len(aood), "history": desc.history}
+                   "aood": len(aood), "history": desc.history, "clientx": cx}
 
 
 class Check(PropertyCheck):
@@ -717,21 +809,24 @@ class Check(PropertyCheck):
                    # the BuildSystem's rule set has the failure facts (Props/C10Client.lean)
                    "C10_client_failure", "C10_client_failed_never_up_to_date", "C10_client_failed_is_rerun",
                    "C10_client_downstream_done_is_bad", "C10_client_downstream_delivers_bad", "C10_client_converges",
-                   "C10_client_tables_agree")]
+                   "C10_client_tables_agree",
+                   # Props/C08X.lean: the EXTENDED client (a shell command fails by itself: non-zero exit status; dependency-file failure)
+                   "C10X_client_failure", "C10X_own_failure_never_feeds_dependents", "C10X_own_failure_retried")]
     # x_bsrules / x_enginefp: the engine-level theorems (Props/C10Client.lean, Props/C10Engine.lean) quantify over the
     # generated rule tables of the C08 client model and import the engine-model fingerprint check of C01
-    extractors = ["x_failtables", "x_bsrules", "x_enginefp"]
+    # x_depsparsers: Props/C08X.lean (extended client) ties its dependency files to the parser models of C11 (Generated/DepsTables.lean)
+    extractors = ["x_failtables", "x_bsrules", "x_enginefp", "x_depsparsers"]
     harnesses = [("vc10", "plain")]
     assumptions = [
         "decision chains are translated from the source text by extract/x_failtables.py (fails closed on unknown shapes) and corresponded exhaustively against the real methods",
         "phony commands' virtual non-timestamp outputs are ordering-only edges (F16; documented purpose of the tool) and SwiftGetVersionCommand is never a producer",
-        "engine-level clauses (closure, re-run on the next build, convergence) are theorems about traces accepted by the abstract engine monitor (Model/Engine.lean; its tie to BuildEngine.cpp is C01's correspondence) for any client with the two failure facts, instantiated for the C08 client model (Model/BuildSystemClient.lean: no discovered dependencies, a command has no failure of its own besides a missing/failed input); 'not executed' is stated on values (the skip value), the process-level statement is C10_failed_input_skips + the end-to-end oracle",
+        "engine-level clauses (closure, re-run on the next build, convergence) are theorems about traces accepted by the abstract engine monitor (Model/Engine.lean; its tie to BuildEngine.cpp is C01's correspondence) for any client with the two failure facts, instantiated for the C08 client model (Model/BuildSystemClient.lean: no discovered dependencies, a command has no failure of its own besides a missing/failed input) AND for its extension (Model/BuildSystemClientX.lean, Props/C08X.lean: a shell command that exits with a non-zero status - `exitsNonZero`, a predicate of the contents of its declared inputs - or whose dependency files cannot be processed completes with the failure value; C10X_own_failure_never_feeds_dependents / C10X_own_failure_retried; stream `clientx` compares the value kind the real engine records in build.db for every command and produced node, and every recorded dependency list, with that model on every build of the keep-going and session histories); 'not executed' is stated on values (the skip value), the process-level statement is C10_failed_input_skips + the end-to-end oracle",
         "a CAPIExternalCommand whose client supplies its own is_result_valid is outside the table (client code)",
         "allow-modified-outputs: a command whose only reason to run is a changed INPUT is not re-run while its outputs exist (known finding F42, property C08); the C10 histories keep to the failure/retry/repair clauses: whenever the test edits a source it removes the outputs of the allow-modified-outputs commands at or below it",
         "requires fix F47 (start() resets hasPriorResult / canUpdateIfNewer; applied): without it C10_failed_prior_is_rerun_reused does not hold and the life stream / the session client report the stale-flag history",
         "known finding F48 (cancelled build keeps the last successful database record of the commands in flight; allow-modified-outputs commands are then not retried through the llbuild tool) is suppressed by its narrow match only",
     ]
-    trusted_base = ["extractor x_failtables", "extractors x_bsrules, x_enginefp (shared with C08 / C01) and the hand models Model/Engine.lean, Model/BuildSystemClient.lean for the engine-level theorems", "harness vc10 (real getResultForOutput / provideValue+execute / isResultValid / Produced*NodeTask::isResultValid)",
+    trusted_base = ["build.db decoder of the `clientx` stream (first byte of the stored BuildValue = kind; dependency list = key ids)", "extractor x_failtables", "extractors x_bsrules, x_enginefp (shared with C08 / C01) and the hand models Model/Engine.lean, Model/BuildSystemClient.lean for the engine-level theorems", "harness vc10 (real getResultForOutput / provideValue+execute / isResultValid / Produced*NodeTask::isResultValid)",
                     "python oracles: table restatement of the three clauses; end-to-end history oracle through bin/llbuild",
                     "Linux wait-status encoding (glibc <bits/waitstatus.h>, signal numbers) written into the generated file by the extractor; the proc stream "
                     "compares it with what the kernel reports for real children (python os.W* on the raw status)"]
@@ -943,6 +1038,7 @@ class Check(PropertyCheck):
 
     # ---------------------------------------------------------------------------------------------
     def e2e_part(self, ctx, res):
+        KINDS[:] = generated_names()[0]
         exe = os.path.join(C.BUILD, "plain", "bin", "llbuild")
         base = os.path.join(C.BUILD, "scratch", "c10-e2e-%d" % os.getpid())
         os.makedirs(base, exist_ok=True)
@@ -1056,7 +1152,41 @@ class Check(PropertyCheck):
             res.evaluations += tot["runs"]
             res.distinct_nontrivial += tot["with_downstream"]
             res.distribution[key] = tot
+        self.clientx_part(ctx, res, [r[1].get("clientx") for r in results if r and r[1] and r[1].get("clientx")])
         shutil.rmtree(base, ignore_errors=True)
+
+    def clientx_part(self, ctx, res, cxs):
+        """every build of the keep-going / session histories: value kinds and dependency lists in build.db vs the extended client model"""
+        cases = [c for cx in cxs for c in cx["cases"]]
+        outside = {}
+        for cx in cxs:
+            for k, v in cx["outside"].items():
+                outside[k] = outside.get(k, 0) + v
+        dist = {"builds_compared": 0, "commands_compared": 0, "failed": 0, "skipped": 0, "ok": 0, "nodes_compared": 0,
+                "builds_outside_the_model": outside}
+        if cases:
+            lines = [l for c in cases for l in c[0]]
+            mrc, mout, merr = run_model("c08xclean", lines)
+            if mrc != 0 or len(mout) != len(cases):
+                if ctx.model_ok:
+                    res.mismatches.append({"stream": "clientx", "input": "model driver exit %s, %d/%d lines" % (mrc, len(mout), len(cases)),
+                                           "model": merr[-300:], "impl": ""})
+            else:
+                for (ls, impl, where), ml in zip(cases, mout):
+                    m = clientx_canon(ml)
+                    dist["builds_compared"] += 1
+                    for tok in impl.split():
+                        if tok.startswith("C"):
+                            dist["commands_compared"] += 1
+                            stt = tok.partition("=")[2].partition(":")[0]
+                            if stt in dist:
+                                dist[stt] += 1
+                        else:
+                            dist["nodes_compared"] += 1
+                    if m != impl and len(res.mismatches) < 20:
+                        res.mismatches.append({"stream": "clientx", "input": {"where": where, "ops": ls}, "model": m, "impl": impl})
+        res.evaluations += dist["builds_compared"]
+        res.distribution["clientx"] = dist
 
     def correspond(self, ctx, res):
         self.table_part(ctx, res)
@@ -1087,7 +1217,13 @@ class Check(PropertyCheck):
                     "subsets, each optionally rebuilt unchanged, optionally after a fully successful build, then repair, comparison with a clean build "
                     "and a null build; serial and -j4; three clients (llbuild tool, keep-going client with a BuildSystem per build, keep-going client "
                     "reusing one BuildSystem). Non-trivial = table rows with a failure kind / descriptions where a failed command has "
-                    "data-dependent consumers." % ("-4" if ctx.thorough else "", "-3" if ctx.thorough else ""))
+                    "data-dependent consumers. CLIENTX: after every build of the keep-going and session histories the value kind the engine "
+                    "recorded in build.db for every command (SuccessfulCommand / FailedCommand or CancelledCommand / PropagatedFailureCommand) and "
+                    "every produced file node (ExistingInput / FailedInput), and every command's recorded dependency list, are compared with the "
+                    "clean evaluation of the extended client model (driver mode c08xclean over Model/BuildSystemClientX.lean: ok / failed / skipped, "
+                    "no discovered keys); builds through the llbuild tool (it cancels at the first failure and keeps older records, F48) and states "
+                    "with a missing input of an allow-missing-inputs command are outside the model and counted."
+                    % ("-4" if ctx.thorough else "", "-3" if ctx.thorough else ""))
 
     def search(self, ctx, res, why):
         return   # the table comparison is exhaustive and the end-to-end oracle already ran
